@@ -1098,3 +1098,80 @@ M("c17-log-case-dropped", "C17", "prometheus/config.go",
 				log.Printf("tally prometheus reporter error: %v\\n", err)
 			}
 """, expect="O5 callback-table")
+
+# ---------------------------------------------------------------- C16 thrift tables / calc transport
+M("c16-swap-field-ids", "C16", "m3/thrift/v2/ttypes.go",
+  """	if err := oprot.WriteFieldBegin("count", thrift.I64, 2); err != nil {""", """	if err := oprot.WriteFieldBegin("count", thrift.I64, 4); err != nil {""", expect="O1 writer-reader-table")
+M("c16-write-i32-as-i64", "C16", "m3/thrift/v2/ttypes.go",
+  "	if err := oprot.WriteI64(int64(p.Timestamp)); err != nil {", "	if err := oprot.WriteI32(int32(p.Timestamp)); err != nil {", expect="O1 writer-reader-table")
+M("c16-reader-wrong-field", "C16", "m3/thrift/v2/ttypes.go",
+  """	if v, err := iprot.ReadI64(); err != nil {
+		return thrift.PrependError("error reading field 4: ", err)
+	} else {
+		p.Timer = v
+	}""", """	if v, err := iprot.ReadI64(); err != nil {
+		return thrift.PrependError("error reading field 4: ", err)
+	} else {
+		p.Count = v
+	}""", expect="O1 writer-reader-table")
+M("c16-writer-wrong-field", "C16", "m3/thrift/v2/ttypes.go",
+  "	if err := oprot.WriteString(string(p.Value)); err != nil {", "	if err := oprot.WriteString(string(p.Name)); err != nil {", expect="O1 writer-reader-table")
+M("c16-field-not-written", "C16", "m3/thrift/v2/ttypes.go",
+  """	if err := p.writeField3(oprot); err != nil {
+		return err
+	}
+	if err := p.writeField4(oprot); err != nil {
+		return err
+	}
+	if err := oprot.WriteFieldStop(); err != nil {
+		return thrift.PrependError("write field stop error: ", err)
+	}
+	if err := oprot.WriteStructEnd(); err != nil {
+		return thrift.PrependError("write struct stop error: ", err)
+	}
+	return nil
+}
+
+func (p *Metric) writeField1""", """	if err := p.writeField4(oprot); err != nil {
+		return err
+	}
+	if err := oprot.WriteFieldStop(); err != nil {
+		return thrift.PrependError("write field stop error: ", err)
+	}
+	if err := oprot.WriteStructEnd(); err != nil {
+		return thrift.PrependError("write struct stop error: ", err)
+	}
+	return nil
+}
+
+func (p *Metric) writeField1""", expect="O1 writer-reader-table")
+M("c16-switch-wrong-dispatch", "C16", "m3/thrift/v2/ttypes.go",
+  """			if err := p.readField2(iprot); err != nil {
+				return err
+			}
+			issetCount = true""", """			if err := p.readField4(iprot); err != nil {
+				return err
+			}
+			issetCount = true""", expect="O1 writer-reader-table", count=1)
+M("c16-list-len-minus-one", "C16", "m3/thrift/v2/ttypes.go",
+  "		if err := oprot.WriteListBegin(thrift.STRUCT, len(p.Tags)); err != nil {", "		if err := oprot.WriteListBegin(thrift.STRUCT, len(p.Tags)-1); err != nil {", expect="O1 writer-reader-table")
+M("c16-client-no-flush", "C16", "m3/thrift/v2/m3.go",
+  """	if err = oprot.WriteMessageEnd(); err != nil {
+		return
+	}
+	return oprot.Flush()""", """	if err = oprot.WriteMessageEnd(); err != nil {
+		return
+	}
+	return nil""", expect="O1 client-send")
+M("c16-calc-string-plus-one", "C16", "m3/customtransports/m3_calc_transport.go",
+  "	p.count += int32(len(s))", "	p.count += int32(len(s)) + 1", expect="O2 calc-transport")
+M("c16-calc-byte-not-counted", "C16", "m3/customtransports/m3_calc_transport.go",
+  "	p.count++\n", "", expect="O2 calc-transport")
+M("c16-calc-write-reports-zero", "C16", "m3/customtransports/m3_calc_transport.go",
+  "	p.count += int32(len(buf))\n	return len(buf), nil", "	p.count += int32(len(buf))\n	return 0, nil", expect="O2 calc-transport")
+M("c16-no-reset", "C16", "m3/reporter.go",
+  "	size := r.calc.GetCount()\n	r.calc.ResetCount()\n", "	size := r.calc.GetCount()\n", expect="O3 calculate-size")
+M("c16-count-before-write", "C16", "m3/reporter.go",
+  "	m.Write(r.calcProto) //nolint:errcheck\n	size := r.calc.GetCount()\n", "	size := r.calc.GetCount()\n	m.Write(r.calcProto) //nolint:errcheck\n", expect="O3 calculate-size")
+M("c16-no-lock", "C16", "m3/reporter.go",
+  "	r.calcLock.Lock()\n	m.Write(r.calcProto)", "	m.Write(r.calcProto)", expect="O3 calculate-size")
